@@ -70,11 +70,19 @@ func (m *hashmap) orderedEntries() []*entry {
 // builtin maps (map[value]value) keep their insertion order in a side table keyed by map identity
 var mapOrder = map[uintptr][]value{}
 
+// mapPad: a symbolic number of further entries (intrinsic vMapPad); mapKeep keeps maps with side
+// tables alive so that their identity is not reused within a path
+var mapPad = map[uintptr]*Term{}
+var mapKeep []map[value]value
+
 func mapID(m map[value]value) uintptr { return reflect.ValueOf(m).Pointer() }
 
 func mapSet(m map[value]value, k, v value) {
 	if _, ok := m[k]; !ok {
 		id := mapID(m)
+		if _, seen := mapOrder[id]; !seen {
+			mapKeep = append(mapKeep, m)
+		}
 		mapOrder[id] = append(mapOrder[id], k)
 	}
 	m[k] = v
